@@ -1,10 +1,11 @@
 """C18 — legacy model loaders agree with the native loader."""
 from __future__ import annotations
-import json, os, random, zipfile
+import json, os, random, shutil, zipfile
 from xml.sax.saxutils import quoteattr
 from ..common import Result, Violation, run_driver, canon_hash, scratch
 from ..langgen import LangGen, lang_payload, jtxt
 from ..mhist import Impl, Gen, canon_obs
+from .. import genexec
 
 ASSUMPTIONS = [
     'the XML / zip layer: xml.etree, zipfile and the harness rendering of the abstract securiCAD document (objects with nested evidenceAttributes / evidenceDistribution / parameters, associations) are assumed and exercised through real archives',
@@ -69,14 +70,262 @@ def emit_scad_xml(m):
     lines.append('</com.foreseeti.kernalCAD:XMIObjectModel>')
     return '\n'.join(lines)
 
-def check_case(spec, ops, which, mo, rnd):
+# --------------------------------------------------------------------------------------------------------------------
+# the third column (notes/NOTES_genexec2_legneo.md): the GENERATED loaders (`Py/GenLegacy`, driver op `gen_legacy`) on the
+# very file the real loader read - what the two layers of the file boundary return for it (`json.loads` / `yaml.safe_load`
+# resp. zipfile + xml.etree), not a document recomputed from the history
+def pyj(x):
+    """a value of the JSON / YAML layer in the driver's tagged form (`GenXLeg.parsePyJ`); `None` inside = not expressible"""
+    if x is None or isinstance(x, (bool, str)): return x
+    if isinstance(x, int): return {'i': str(x)}
+    if isinstance(x, float): return {'f': repr(x)}
+    if isinstance(x, list): return [pyj(e) for e in x]
+    if isinstance(x, dict):
+        for k in x:
+            if isinstance(k, bool) or not isinstance(k, (str, int)): raise TypeError('key outside str / int')
+        return {'d': [[pyj(k), pyj(v)] for k, v in x.items()]}
+    raise TypeError(type(x).__name__)
+
+def read_layers(path, both=True):
+    """what `json.loads(f.read())` and `yaml.safe_load(f)` return for the file (or the class of what they raise)"""
+    import yaml
+    txt = open(path, 'r', encoding='utf-8').read()
+    out = {}
+    first = 'json' if path.endswith('.json') else 'yaml'
+    for k, f in (('json', json.loads), ('yaml', yaml.safe_load)):
+        if not both and k != first: continue
+        try: out[k] = pyj(f(txt))
+        except ValueError: out[k] = {'raises': 'ValueError'}          # json.JSONDecodeError
+        except Exception as e: out[k] = {'raises': type(e).__name__}
+    return out
+
+def read_eom(path):
+    """the parsed `.eom` member as the abstract archive of the prelude (`Legacy.ScadDoc`): objects with `int(id)` and the
+    (metaConcept, value) pairs of evidenceAttributes / evidenceDistribution / parameters[@value]; associations"""
+    import xml.etree.ElementTree as ET
+    with zipfile.ZipFile(path, 'r') as z:
+        root = ET.fromstring(z.read(next(filter(lambda x: x[-4:] == '.eom', z.namelist()))))
+    objs = []
+    for ch in root.iter('objects'):
+        defs = [[sub.attrib['metaConcept'], d.attrib['value']] for sub in ch.iter('evidenceAttributes')
+                for dist in sub.iter('evidenceDistribution') for d in dist.iter('parameters') if 'value' in d.attrib]
+        objs.append({'id': int(ch.attrib['id']), 'name': ch.attrib['name'], 'metaConcept': ch.attrib['metaConcept'], 'defenses': defs})
+    return {'objects': objs,
+            'associations': [{'sourceObject': int(c.attrib['sourceObject']), 'targetObject': int(c.attrib['targetObject']),
+                              'sourceProperty': c.attrib['sourceProperty'], 'targetProperty': c.attrib['targetProperty']} for c in root.iter('associations')]}
+
+ERR_NAMES = ('ValueError', 'LookupError', 'DuplicateModelAssociationError', 'ModelAssociationException', 'KeyError', 'AttributeError',
+             'AssertionError', 'RecursionError', 'ValidationError', 'TypeError')
+def err_class(e):
+    """the class of an exception in the vocabulary of the prelude (`LErr` / `PyM.PyErr`): its own name when listed, everything
+    else (IndexError - although a LookupError by inheritance -, OSError …) is `OtherError`, as `PyErr.other` in the prelude"""
+    n = type(e).__name__
+    return n if n in ERR_NAMES else 'OtherError'
+
+def impl_result(got):
+    """what a real loader returned, in the form of the driver's answer"""
+    if got is None: return {'none': True}
+    im2 = Impl.__new__(Impl); im2.m = got
+    try: return {'loaded': Impl.obs(im2), 'name': got.name}
+    except Exception as e: return {'unobservable': type(e).__name__}      # e.g. an entry point `(None, steps)`
+
+def gen_same(ir, go):
+    """implementation result `ir` against the answer `go` of `gen_legacy`: outcome kind, error class, the model name and the
+    WHOLE canonical state (assets with defenses / extras / back-references, associations, attackers with names and entry
+    points, reserved ids / names, type index sizes, next id).  Returns None when equal, else what differs."""
+    kind = lambda r: 'loaded' if 'loaded' in r else 'none' if 'none' in r else 'error'
+    if kind(ir) != kind(go): return f'outcome: implementation {kind(ir)} {ir.get("error", "")}, generated {kind(go)} {go.get("error", "")}'
+    if 'error' in ir: return None if ir['error'] == go['error'] else f'exception class: implementation {ir["error"]}, generated {go["error"]}'
+    if 'none' in ir: return None
+    if ir['name'] != go['name']: return 'model name'
+    x, y = canon_obs(ir['loaded']), canon_obs(go['loaded'])
+    diff = [k for k in x if x[k] != y[k]]
+    return ('state: ' + ','.join(diff)) if diff else None
+
+# --------------------------------------------------------------------------------------------------------------------
+# malformed / hand-edited variants of the legacy files: implementation vs GENERATED code only (the hand-written model reads
+# typed documents; the property says nothing about such files).  What is exercised: the exception classes and the order of
+# the checks of the translated loaders, `d.get` defaults, the shorthand asset entry, scalar members, `return None`.
+OLD_MUTS = ['asset_class', 'asset_key', 'key_zero', 'dup_key', 'defense_range', 'defense_name', 'defense_int', 'member_unknown', 'member_text',
+            'assoc_class', 'shorthand', 'no_attackers', 'no_metadata', 'no_assocs', 'ep_unknown', 'ep_text', 'attacker_key', 'attacker_noname',
+            'attacker_emptyname', 'attacker_name_missing', 'version', 'extension', 'scalar_member', 'no_name', 'swapped_fields']
+OLD_MUTS += ['name_not_str', 'name_null', 'key_spelling']
+# `name_not_str` (an asset entry `"name": 7`: python_jsonschema_objects keeps it as an additional property), `key_spelling` (asset key
+# "+5" / " 5" / "5\t": CPython's `int` accepts it, `String.toInt?` does not): the two findings of notes/NOTES_genexec2_legneo.md,
+# REPAIRED in `PreludeLegacy` (`nsNewAsset`, `jInt` answer `unmodelled` there) - drawn again, counted as not comparable;
+# `name_null` (`"name": null`: the constructor sets nothing, `add_asset` gives the default name) is compared.
+SCAD_MUTS = ['obj_class', 'assoc_unknown_obj', 'ep_unknown_attacker', 'ep_unknown_asset', 'field_wrong', 'dup_obj_id', 'defense_range',
+             'defense_unknown', 'empty_evidence', 'two_params', 'ends_swapped', 'attacker_first', 'dup_attacker_id']
+
+def mutate_old(d, rnd, kind=None):
+    """one edit of a 0.0.39 document (as `emit_old` made it).  Returns (kind, file extension or None, version, badFloats) or None
+    when the drawn edit does not apply to this document."""
+    kind = kind or rnd.choice(OLD_MUTS)
+    ext, version, bad = None, '0.0.39', []
+    akeys = [k for k, v in d['assets'].items() if isinstance(v, dict)]
+    fields = lambda e: e['association'] if 'association' in e else e
+    fnames = lambda e: [f for f in fields(e) if f != 'metaconcept']
+    def rekey(dct, old, new): return {(new if k == old else k): v for k, v in dct.items()}
+    if kind in ('asset_class', 'asset_key', 'key_zero', 'key_spelling', 'dup_key', 'defense_range', 'defense_name', 'defense_int', 'shorthand', 'no_name', 'name_not_str', 'name_null'):
+        if not akeys: return None
+        k = rnd.choice(akeys); v = d['assets'][k]
+        if kind == 'asset_class': v['metaconcept'] = 'NoSuchClass'
+        elif kind == 'asset_key': d['assets'] = rekey(d['assets'], k, 'x' + str(k))
+        elif kind == 'key_zero':
+            if str(k).startswith('-'): return None
+            d['assets'] = rekey(d['assets'], k, '0' + str(k))
+        elif kind == 'key_spelling':
+            if str(k).startswith('-'): return None
+            d['assets'] = rekey(d['assets'], k, rnd.choice(['+' + str(k), ' ' + str(k), str(k) + '\t', '\u0665' + str(k)]))
+        elif kind == 'dup_key':
+            if str(k).startswith('-'): return None
+            d['assets']['00' + str(k)] = dict(v)
+        elif kind == 'defense_range':
+            if not v.get('defenses'): return None
+            v['defenses'][rnd.choice(sorted(v['defenses']))] = rnd.choice([1.5, -0.25]); bad = ['1.5', '-0.25']
+        elif kind == 'defense_name': v.setdefault('defenses', {})['noSuchDefense'] = 0.5
+        elif kind == 'defense_int':
+            if not v.get('defenses'): return None
+            v['defenses'][rnd.choice(sorted(v['defenses']))] = 1
+        elif kind == 'shorthand': d['assets'][k] = v['metaconcept']
+        elif kind == 'no_name': del v['name']
+        elif kind == 'name_not_str': v['name'] = rnd.choice([7, 2.5, True, ['a']])
+        elif kind == 'name_null': v['name'] = None
+    elif kind in ('member_unknown', 'member_text', 'assoc_class', 'scalar_member', 'swapped_fields'):
+        if not d['associations']: return None
+        e = rnd.choice(d['associations'])
+        if kind == 'assoc_class': e['metaconcept'] = 'NoSuchAssociation'
+        elif kind == 'member_unknown': fields(e)[rnd.choice(fnames(e))].append(987654)
+        elif kind == 'member_text': fields(e)[rnd.choice(fnames(e))].append('abc')
+        elif kind == 'scalar_member':
+            one = [f for f in fnames(e) if len(fields(e)[f]) == 1]
+            if not one: return None
+            fields(e)[one[0]] = fields(e)[one[0]][0]
+        elif kind == 'swapped_fields':
+            fs = fields(e); items = [(f, fs[f]) for f in fnames(e)]
+            for f, _ in items: del fs[f]
+            for f, x in reversed(items): fs[f] = x
+    elif kind in ('ep_unknown', 'ep_text', 'attacker_key', 'attacker_noname', 'attacker_emptyname', 'attacker_name_missing'):
+        if not d['attackers']: return None
+        k = rnd.choice(list(d['attackers'])); t = d['attackers'][k]
+        if kind == 'ep_unknown': t['entry_points']['987654'] = {'attack_steps': ['x']}
+        elif kind == 'ep_text': t['entry_points']['abc'] = {'attack_steps': ['x']}
+        elif kind == 'attacker_key': d['attackers'] = rekey(d['attackers'], k, 'x' + str(k))
+        elif kind == 'attacker_noname': t['name'] = None
+        elif kind == 'attacker_emptyname': t['name'] = ''
+        elif kind == 'attacker_name_missing': del t['name']
+    elif kind == 'no_attackers': del d['attackers']
+    elif kind == 'no_metadata': del d['metadata']
+    elif kind == 'no_assocs': del d['associations']
+    elif kind == 'version': version = rnd.choice(['0.0.38', '0.0.390', ''])
+    elif kind == 'extension': ext = rnd.choice(['txt', 'jsn', 'JSON', 'yaml.bak'])
+    return kind, ext, version, bad
+
+def mutate_scad(xml, rnd):
+    """one edit of the `.eom` document.  Returns (kind, xml text, badFloats) or None."""
+    import xml.etree.ElementTree as ET
+    kind = rnd.choice(SCAD_MUTS)
+    root = ET.fromstring(xml); bad = []
+    objs = [o for o in root.iter('objects') if o.attrib['metaConcept'] != 'Attacker']
+    atts = [o for o in root.iter('objects') if o.attrib['metaConcept'] == 'Attacker']
+    links = [a for a in root.iter('associations') if 'firstSteps' not in (a.attrib['sourceProperty'], a.attrib['targetProperty'])]
+    eps = [a for a in root.iter('associations') if 'firstSteps' in (a.attrib['sourceProperty'], a.attrib['targetProperty'])]
+    def evidence(o, name, values):
+        ev = ET.SubElement(o, 'evidenceAttributes', {'metaConcept': name}); dist = ET.SubElement(ev, 'evidenceDistribution', {'type': 'Bernoulli'})
+        for x in values: ET.SubElement(dist, 'parameters', {'name': 'probability', 'value': x})
+    def known(o):
+        names = [e.attrib['metaConcept'] for e in o.iter('evidenceAttributes') if any(True for _ in e.iter('parameters'))]
+        return rnd.choice(names) if names else None
+    if kind in ('obj_class', 'dup_obj_id', 'defense_range', 'defense_unknown', 'empty_evidence', 'two_params'):
+        if not objs: return None
+        o = rnd.choice(objs)
+        if kind == 'obj_class': o.set('metaConcept', 'NoSuchClass')
+        elif kind == 'dup_obj_id': root.insert(list(root).index(o) + 1, ET.fromstring(ET.tostring(o)))
+        elif kind == 'defense_unknown': evidence(o, 'NoSuchDefense', ['0.5'])
+        elif kind == 'empty_evidence': evidence(o, '', ['0.5'])
+        else:
+            n = known(o)
+            if n is None: return None
+            if kind == 'defense_range': evidence(o, n, [rnd.choice(['1.5', '-0.25'])]); bad = ['1.5', '-0.25']
+            else: evidence(o, n, ['0.25', '0.75'])
+    elif kind in ('assoc_unknown_obj', 'field_wrong', 'ends_swapped'):
+        if not links: return None
+        a = rnd.choice(links)
+        if kind == 'assoc_unknown_obj': a.set(rnd.choice(['sourceObject', 'targetObject']), '987654')
+        elif kind == 'field_wrong': a.set(rnd.choice(['sourceProperty', 'targetProperty']), 'noSuchField')
+        else: s, t = a.attrib['sourceObject'], a.attrib['targetObject']; a.set('sourceObject', t); a.set('targetObject', s)
+    elif kind in ('ep_unknown_attacker', 'ep_unknown_asset'):
+        if not eps: return None
+        a = rnd.choice(eps)
+        att_side = 'sourceObject' if a.attrib['sourceProperty'] == 'firstSteps' else 'targetObject'
+        other = 'targetObject' if att_side == 'sourceObject' else 'sourceObject'
+        a.set(att_side if kind == 'ep_unknown_attacker' else other, '987654')
+    elif kind == 'attacker_first':                 # the Attacker objects before the assets: ids / next_id in another order
+        if not atts or not objs: return None
+        for t in atts: root.remove(t)
+        for i, t in enumerate(atts): root.insert(i, t)
+    elif kind == 'dup_attacker_id':
+        if not atts: return None
+        root.append(ET.fromstring(ET.tostring(atts[0])))
+    return kind, ET.tostring(root, encoding='unicode'), bad
+
+def malformed_variant(which, im, m, doc, fmt, rnd, kind=None):
+    """derive one malformed file from the case's model, run the REAL loader on it; returns {'kind', 'gen' (payload), 'impl'} or None"""
+    from maltoolbox.translators import updater, securicad
+    from maltoolbox.file_utils import save_dict_to_file
+    d = scratch()
+    if which == 'old':
+        od = emit_old(json.loads(json.dumps(doc)), rnd.random() < 0.5)
+        mu = mutate_old(od, rnd, kind)
+        if mu is None: return None
+        kind, ext, version, bad = mu
+        wpath = os.path.join(d, 'odd.' + fmt); save_dict_to_file(wpath, od)
+        path = wpath if ext is None else os.path.join(d, 'odd.' + ext)
+        if path != wpath: shutil.copyfile(wpath, path)
+        try: gen = {'which': 'old', 'file': path, 'version': version, 'badFloats': bad, **read_layers(wpath)}
+        except TypeError: return None
+        try: impl = impl_result(updater.load_model_from_older_version(path, im.fac, version))
+        except Exception as e: impl = {'error': err_class(e)}
+    else:
+        mu = mutate_scad(emit_scad_xml(m), rnd)
+        if mu is None: return None
+        kind, xml, bad = mu
+        path = os.path.join(d, 'odd.sCAD')
+        with zipfile.ZipFile(path, 'w') as z:
+            z.writestr('meta.json', '{}'); z.writestr('model.eom', xml)
+        gen = {'which': 'scad', 'file': path, 'badFloats': bad, 'eom': read_eom(path)}
+        try: impl = impl_result(securicad.load_model_from_scad_archive(path, im.lg, im.fac))
+        except Exception as e: impl = {'error': err_class(e)}
+    return {'kind': f'{which}:{kind}', 'gen': gen, 'impl': impl}
+
+def finish_malformed(st, go, res):
+    """implementation vs generated code on the malformed variant of a case"""
+    mv = st['mal']
+    rp = {'spec': st['spec'], 'ops': st['ops'], 'which': st['which'], 'malformed': mv['kind'], 'payload': mv['gen']}
+    if 'error' in go: return genexec.driver_error('C18', go['error'], rp)
+    g, ir = go['model'], mv['impl']
+    out = 'loads' if 'loaded' in ir else 'None' if 'none' in ir else ir.get('error') or 'unobservable'
+    if 'skip' in g or g.get('error') == 'unmodelled' or 'unobservable' in ir:
+        if res: res.bump(f'malformed_not_comparable:{mv["kind"]} -> {out} / ' + (g.get('skip') or g.get('error') or 'loads'))
+        return None
+    if res: res.bump('generated_code_malformed_files_compared'); res.bump(f'malformed:{mv["kind"]} -> {out}')
+    d = gen_same(ir, g)
+    if d is not None:
+        return genexec.divergence('C18', 'load_model_from_older_version' if st['which'] == 'old' else 'load_model_from_scad_archive',
+                                  f'on a malformed {st["which"]} file ({mv["kind"]}; {d})', {**rp, 'impl': ir, 'generated': g})
+    return None
+
+def prepare_case(spec, ops, which, rnd, mal=False):
+    """the real side of one case: history, files, the real loaders.  Returns the state `finish_case` needs; `st['gen']` is
+    the payload of the generated column (without `lang`), `st['impl']` what the real legacy loader returned / raised"""
     from maltoolbox.model import Model
     from maltoolbox.translators import updater, securicad
+    st = {'spec': spec, 'ops': ops, 'which': which, 'hand': True, 'gen': None, 'impl': None, 'v': None, 'note': None, 'both_layers': True, 'mal': None}
     im = Impl(spec)
     for op in ops: im.step(op)
     m = im.m
     ids = [t.id for t in m.attackers]
-    if len(set(ids)) != len(ids): return None, 'skipped: duplicate attacker ids (KF-C07-1)'
+    if len(set(ids)) != len(ids): st['note'] = 'skipped: duplicate attacker ids (KF-C07-1)'; return st
     d = scratch()
     native_path = os.path.join(d, 'native.json'); m.save_to_file(native_path)
     ref = Model.load_from_file(native_path, im.fac)
@@ -98,7 +347,7 @@ def check_case(spec, ops, which, mo, rnd):
                     t['entry_points'] = {str(big(k)): v for k, v in t['entry_points'].items()}
                 renum = os.path.join(d, 'native_big.json'); json.dump(doc, open(renum, 'w'))
                 ref = Model.load_from_file(renum, im.fac)
-                mo = None
+                st['hand'] = False
             if rnd.random() < 0.5 and len(doc['assets']) >= 2:
                 # a hand-edited file: assets listed in another order, and (sometimes) two assets with the same name —
                 # both loaders resolve the clash in the order of the file.  The equivalent native file is edited alike.
@@ -110,37 +359,78 @@ def check_case(spec, ops, which, mo, rnd):
                 edited = os.path.join(d, 'native_edited.' + fmt)       # same file format: PyYAML lists keys sorted, JSON as given
                 save_dict_to_file(edited, doc)
                 ref = Model.load_from_file(edited, im.fac)
-                mo = None                          # the Lean side computes the document from the history, not from the edited file
+                st['hand'] = False                 # the Lean side computes the document from the history, not from the edited file
             save_dict_to_file(path, emit_old(doc, rnd.random() < 0.5))
+            try: st['gen'] = {'which': 'old', 'file': path, 'version': '0.0.39', **read_layers(path, both=st['both_layers'])}
+            except TypeError as e: st['note'] = f'generated column skipped: {e}'
             got = updater.load_model_from_older_version(path, im.fac, '0.0.39')
+            st['impl'] = impl_result(got)
             a, b = view(got, False), view(ref, False)
         else:
             path = os.path.join(d, 'model.sCAD')
             with zipfile.ZipFile(path, 'w') as z:
                 z.writestr('model.eom', emit_scad_xml(m)); z.writestr('meta.json', '{}')
+            st['gen'] = {'which': 'scad', 'file': path, 'eom': read_eom(path)}
             got = securicad.load_model_from_scad_archive(path, im.lg, im.fac)
+            st['impl'] = impl_result(got)
             if got is None: raise LookupError('loader returned None')
             a, b = view(got, True), view(ref, True)
     except Exception as e:
-        return Violation(what=f'the {which} loader fails on a model the native loader accepts: {type(e).__name__}: {str(e)[:100]}',
-                         fingerprint=f'C18:{which}-loader-raises:{type(e).__name__}', replay={'spec': spec, 'ops': ops, 'which': which}), None
+        if st['impl'] is None: st['impl'] = {'error': err_class(e)}
+        st['v'] = Violation(what=f'the {which} loader fails on a model the native loader accepts: {type(e).__name__}: {str(e)[:100]}',
+                            fingerprint=f'C18:{which}-loader-raises:{type(e).__name__}', replay={'spec': spec, 'ops': ops, 'which': which})
+        return st
     if a != b:
         diff = [k for k in a if a[k] != b[k]]
-        return Violation(what=f'the {which} loader and the native loader disagree on {diff}', fingerprint=f'C18:{which}:' + ','.join(diff),
-                         replay={'spec': spec, 'ops': ops, 'which': which, 'legacy': {k: a[k] for k in diff}, 'native': {k: b[k] for k in diff}}), None
-    if mo is not None:
-        if 'error' in mo or isinstance(mo.get('loaded'), str):
-            return Violation(what=f'Lean model of the {which} loader fails: {mo.get("error") or mo.get("loaded")}', fingerprint='C18:model-divergence',
-                             replay={'spec': spec, 'ops': ops, 'which': which}, no_failing_input=True), None
-        im2 = Impl.__new__(Impl); im2.m = got
-        x, y = canon_obs(Impl.obs(im2)), canon_obs(mo['loaded'])
-        if which == 'scad':            # attacker names cannot be expressed
-            for o in (x, y): o['attackers'] = [[t[0], t[2]] for t in o['attackers']]
-        for k in ('assets', 'associations', 'attackers'):
-            if x[k] != y[k]:
-                return Violation(what=f'implementation and Lean model of the {which} loader disagree on {k}', fingerprint='C18:model-divergence',
-                                 replay={'spec': spec, 'ops': ops, 'which': which, 'impl': x[k], 'model': y[k]}, no_failing_input=True), None
-    return None, None
+        st['v'] = Violation(what=f'the {which} loader and the native loader disagree on {diff}', fingerprint=f'C18:{which}:' + ','.join(diff),
+                            replay={'spec': spec, 'ops': ops, 'which': which, 'legacy': {k: a[k] for k in diff}, 'native': {k: b[k] for k in diff}})
+    if mal and st['v'] is None:
+        # (own random stream, drawn after everything the case itself draws)
+        st['mal'] = malformed_variant(which, im, m, doc if which == 'old' else None, fmt if which == 'old' else None, random.Random(rnd.getrandbits(48)))
+    return st
+
+def hand_diff(st, mo):
+    """the hand-written model of the loader against the implementation (as before the third column): None when they agree"""
+    which = st['which']
+    if 'error' in mo or isinstance(mo.get('loaded'), str):
+        return f'Lean model of the {which} loader fails: {mo.get("error") or mo.get("loaded")}', {}
+    # (the observation of the loaded model was taken in `prepare_case`: the real objects are not kept - 160 class factories
+    # alive at once make every `issubclass` of python_jsonschema_objects walk all their classes)
+    x, y = canon_obs(st['impl']['loaded']), canon_obs(mo['loaded'])
+    if which == 'scad':            # attacker names cannot be expressed
+        for o in (x, y): o['attackers'] = [[t[0], t[2]] for t in o['attackers']]
+    for k in ('assets', 'associations', 'attackers'):
+        if x[k] != y[k]:
+            return f'implementation and Lean model of the {which} loader disagree on {k}', {'impl': x[k], 'model': y[k]}
+    return None
+
+def finish_case(st, mo, go=None, res=None):
+    """oracle (legacy loader = native loader), then the hand model, then the generated code.  Returns (violation, note)."""
+    spec, ops, which = st['spec'], st['ops'], st['which']
+    if st['note'] and st['impl'] is None and st['v'] is None: return None, st['note']
+    if st['v'] is not None: return st['v'], None
+    if mo is not None and st['hand']:
+        d = hand_diff(st, mo)
+        if d is not None:
+            return Violation(what=d[0], fingerprint='C18:model-divergence',
+                             replay={'spec': spec, 'ops': ops, 'which': which, **d[1]}, no_failing_input=True), None
+    if go is not None:
+        rp = {'spec': spec, 'ops': ops, 'which': which, 'payload': st['gen']}
+        if 'error' in go: return genexec.driver_error('C18', go['error'], rp), None
+        g = go['model']
+        if 'skip' in g or g.get('error') == 'unmodelled':
+            if res: res.bump('generated_code_not_comparable:' + (g.get('skip') or 'unmodelled'))
+            return None, st['note']
+        if res: res.bump('generated_code_documents_compared')
+        d = gen_same(st['impl'], g)
+        if d is not None:
+            return genexec.divergence('C18', 'load_model_from_older_version' if which == 'old' else 'load_model_from_scad_archive',
+                                      f'on the {which} file of the case ({d})', {**rp, 'impl': st['impl'], 'generated': g}), None
+    return None, st['note']
+
+def check_case(spec, ops, which, mo, rnd):
+    st = prepare_case(spec, ops, which, rnd)
+    return finish_case(st, mo)
 
 def run(seed, tier, lean) -> Result:
     rnd = random.Random(seed)
@@ -156,16 +446,29 @@ def run(seed, tier, lean) -> Result:
         spec = LangGen(r, knobs={'dup_assoc_names': 0.4, 'reuse_fields': 0.5}).gen()
         ops = Gen(r, spec, WEIGHTS, explicit_attacker_ids=False, extras=False).gen(r.randint(4, 30))[:-1]
         cases.append((spec, ops, 'old' if i % 2 else 'scad', r))
-    model = run_driver([{'op': 'legacy', 'case': i, 'lang': lang_payload(s), 'ops': o, 'which': w} for i, (s, o, w, r) in enumerate(cases)]) if lean['build_ok'] else None
+    # the real side first (the generated loaders read the very files the real loaders read), then ONE driver batch for the
+    # hand-written model and the generated code, then the comparisons
+    sts = [prepare_case(spec, ops, which, r, mal=True) for (spec, ops, which, r) in cases]
+    model = gen = genm = None
+    if lean['build_ok']:
+        hand_p = [{'op': 'legacy', 'case': i, 'lang': lang_payload(s), 'ops': o, 'which': w} for i, (s, o, w, r) in enumerate(cases)]
+        gidx = [i for i, st in enumerate(sts) if st['gen'] is not None]
+        midx = [i for i, st in enumerate(sts) if st['mal'] is not None]
+        out = run_driver(hand_p + [{'op': 'gen_legacy', 'case': i, 'lang': hand_p[i]['lang'], **sts[i]['gen']} for i in gidx]
+                                + [{'op': 'gen_legacy', 'case': i, 'lang': hand_p[i]['lang'], **sts[i]['mal']['gen']} for i in midx])
+        model, gen, genm = out[:len(cases)], dict(zip(gidx, out[len(cases):])), dict(zip(midx, out[len(cases) + len(gidx):]))
     for i, (spec, ops, which, r) in enumerate(cases):
         res.evaluations += 1
         mo = model[i].get('model') if model is not None else None
-        v, note = check_case(spec, ops, which, mo, r)
+        v, note = finish_case(sts[i], mo, gen.get(i) if gen is not None else None, res)
         res.bump(which)
         if note: res.bump(note)
         ks = [o['k'] for o in ops]
         if ks.count('add_entry_point') >= 2 and 'add_association' in ks: res.nontrivial.add(canon_hash([spec, ops, which]))
         if v: res.violations.append(v)
+        if genm is not None and i in genm:
+            v2 = finish_malformed(sts[i], genm[i], res)
+            if v2 and not v: res.violations.append(v2)
         if len(res.samples) < 2 and mo and 'doc' in mo: res.samples.append({'which': which, 'doc': mo['doc']})
     if not res.samples: res.samples.append({'ops': cases[0][1][:5]})
     return res
@@ -175,3 +478,84 @@ def replay(path):
     v, _ = check_case(r['spec'], r['ops'], r['which'], None, random.Random(0))
     print(v.what if v else 'no violation'); print('VIOLATION reproduced' if v else 'not reproduced')
     return 1 if v else 0
+
+def genexec_measure(seed: int, n: int) -> dict:
+    """tools/genexec_seeded.py: n cases of the quick check on the (possibly mutated) implementation, the hand-written model and
+    the (re)generated code.  `impl_ne_hand`: the legacy loader raises / differs from the native loader (the oracle) or from the
+    Lean model of the loader; the malformed variants have no hand model: they only count for `gen_ne_impl`."""
+    rnd = random.Random(seed)
+    stats = {'cases': 0, 'impl_ne_hand': 0, 'gen_follows_impl': 0, 'gen_ne_impl': 0, 'impl_crash': 0, 'malformed_cases': 0,
+             'malformed_gen_ne_impl': 0, 'not_comparable': 0, 'examples': []}
+    def note(kind, info):
+        if len([e for e in stats['examples'] if e[0] == kind]) < 2: stats['examples'].append([kind, info])
+    cases = []
+    for i in range(n):
+        r = random.Random(rnd.getrandbits(48))
+        spec = LangGen(r, knobs={'dup_assoc_names': 0.4, 'reuse_fields': 0.5}).gen()
+        ops = Gen(r, spec, WEIGHTS, explicit_attacker_ids=False, extras=False).gen(r.randint(4, 30))[:-1]
+        cases.append((spec, ops, 'old' if i % 2 else 'scad', r))
+    sts = []
+    for (spec, ops, which, r) in cases:
+        try: sts.append(prepare_case(spec, ops, which, r, mal=True))
+        except Exception as e:
+            sts.append(None); stats['impl_crash'] += 1; note('impl-crash', f'{type(e).__name__}: {str(e)[:100]}')
+    hand_p = [{'op': 'legacy', 'case': i, 'lang': lang_payload(s), 'ops': o, 'which': w} for i, (s, o, w, r) in enumerate(cases)]
+    gidx = [i for i, st in enumerate(sts) if st and st['gen'] is not None and st['impl'] is not None]
+    midx = [i for i, st in enumerate(sts) if st and st['mal'] is not None]
+    out = run_driver(hand_p + [{'op': 'gen_legacy', 'case': i, 'lang': hand_p[i]['lang'], **sts[i]['gen']} for i in gidx]
+                            + [{'op': 'gen_legacy', 'case': i, 'lang': hand_p[i]['lang'], **sts[i]['mal']['gen']} for i in midx])
+    model, gen, genm = out[:len(cases)], dict(zip(gidx, out[len(cases):])), dict(zip(midx, out[len(cases) + len(gidx):]))
+    brief = lambda r: {k: v for k, v in r.items() if k != 'loaded'} if isinstance(r, dict) else r
+    for i, st in enumerate(sts):
+        if st is None or i not in gen: continue
+        stats['cases'] += 1
+        go = gen[i]
+        if 'error' in go or 'error' in model[i]:
+            note('driver-error', [model[i].get('error'), go.get('error')]); continue
+        g = go['model']
+        hd = st['v'].fingerprint if st['v'] is not None else None
+        if hd is None and st['hand']:
+            d = hand_diff(st, model[i]['model'])
+            hd = d[0] if d else None
+        if 'skip' in g or g.get('error') == 'unmodelled' or 'unobservable' in st['impl']:
+            stats['not_comparable'] += 1; gd = None; comparable = False
+        else:
+            gd = gen_same(st['impl'], g); comparable = True
+        info = {'which': st['which'], 'case': i, 'impl_vs_hand': hd, 'impl_vs_gen': gd, 'impl': brief(st['impl']), 'gen': brief(g)}
+        if comparable and gd is not None: stats['gen_ne_impl'] += 1; note('gen!=impl', info)
+        if hd is not None:
+            stats['impl_ne_hand'] += 1
+            if comparable and gd is None: stats['gen_follows_impl'] += 1; note('gen=impl!=hand', info)
+    for i in midx:
+        mv, go = sts[i]['mal'], genm[i]
+        if 'error' in go: note('driver-error', [mv['kind'], go['error']]); continue
+        g = go['model']
+        if 'skip' in g or g.get('error') == 'unmodelled' or 'unobservable' in mv['impl']: continue
+        stats['malformed_cases'] += 1
+        gd = gen_same(mv['impl'], g)
+        if gd is not None:
+            stats['malformed_gen_ne_impl'] += 1
+            note('gen!=impl', {'malformed': mv['kind'], 'case': i, 'impl_vs_gen': gd, 'impl': brief(mv['impl']), 'gen': brief(g)})
+    return stats
+
+def findings(seed=5):
+    """reproduce the two findings about `PreludeLegacy` that the malformed family does NOT draw (implementation vs generated code)"""
+    from ..common import enter_scratch
+    enter_scratch()
+    r = random.Random(seed)
+    spec = LangGen(r, knobs={'dup_assoc_names': 0.4, 'reuse_fields': 0.5}).gen()
+    ops = Gen(r, spec, WEIGHTS, explicit_attacker_ids=False, extras=False).gen(12)[:-1]
+    im = Impl(spec)
+    for op in ops: im.step(op)
+    p = os.path.join(scratch(), 'native.json'); im.m.save_to_file(p)
+    doc = json.load(open(p))
+    for kind in ('name_not_str', 'key_spelling'):
+        mv = malformed_variant('old', im, im.m, doc, 'json', random.Random(1), kind=kind)
+        go = run_driver([{'op': 'gen_legacy', 'case': 0, 'lang': lang_payload(spec), **mv['gen']}])[0]
+        short = lambda x: {k: (v if k != 'loaded' else [[a[0], a[1]] for a in v['assets']]) for k, v in x.items()}
+        print(kind, '\n  file assets:', json.dumps(dict(mv['gen']['json']['d'])['assets'])[:300],
+              '\n  implementation:', short(mv['impl']), '\n  generated code:', short(go.get('model', go)))
+
+if __name__ == '__main__':
+    import sys
+    if sys.argv[1:] == ['findings']: findings()
